@@ -584,7 +584,7 @@ def run(ctx):
         ctx.guard("type", d, check_type, ctx, d)
     for i in ctx.mine(ctx.n(1500, 40000)):
         r = ctx.rng("pa", i)
-        g = Gen(r)
+        g = Gen(r, type_varg=True)
         p = g.param(3)
         ctx.case("param", p, len(repr(p)) > 12)
         ctx.guard("param", p, check_param, ctx, p)
